@@ -80,7 +80,17 @@ class CTL(generic.Desc):
 
 
 def check(prop, tier):
-    return generic.run_check(CTL(), prop, tier)
+    import concurrent.futures as cf
+    from . import apalache
+    with cf.ThreadPoolExecutor(max_workers=1) as ex:
+        # unbounded, model level: the spacing clauses are inductive for any period / clock pattern / history length
+        fut = ex.submit(apalache.induction, "Ctl_Ind", ["Ctl_Ind.tla"],
+                        teeth=("level /\\ now - bdLatest > P IN", "level /\\ now - bdLatest >= P IN"))
+
+        class WithApalache(CTL):
+            def extras(self, prop, tier, out):
+                out.notes["apalache_inductive_invariant"] = fut.result(timeout=1500)
+        return generic.run_check(WithApalache(), prop, tier)
 
 
 def replay(path):
